@@ -59,6 +59,9 @@ type Contract struct {
 	HasFrame bool
 	Pure     bool
 	Wrapping bool
+	// Prune: branches whose path condition is refuted by a solver (2 s) are not explored; used for functions whose
+	// precondition makes most of the body dead (and that body is outside the translatable subset, e.g. cgo calls)
+	Prune bool
 	Trusted  bool
 	NoPanic  bool // trusted: assume callee does not panic (always for contracts)
 	Inline   bool
@@ -421,7 +424,7 @@ var bindingRe = regexp.MustCompile(`^binding\s+([A-Za-z0-9_]+)\s*\(\s*([A-Za-z0-
 var loopRe = regexp.MustCompile(`^loop\s+([0-9]+)\s*:\s*(invariant|decreases|entry-hint|break-hint)\s+(.*)$`)
 
 var clauseKeywords = map[string]bool{"func": true, "extern": true, "pred": true, "lemma": true, "axiom": true, "requires": true, "ensures": true,
-	"assigns": true, "pure": true, "wrapping": true, "trusted": true, "inline": true, "props": true, "loop": true, "let": true,
+	"assigns": true, "pure": true, "wrapping": true, "prune": true, "trusted": true, "inline": true, "props": true, "loop": true, "let": true,
 	"induct": true, "uses": true, "bounded": true, "excluding": true, "global-inv": true, "binding": true, "except": true, "allocbound": true, "function": true, "noalloc": true, "ghostadd": true, "nosafety": true, "ghostput": true, "fieldfunc": true, "defines": true, "decreases": true}
 
 func parseContractFile(path string, pkgPath string) (*ContractFile, error) {
@@ -669,6 +672,8 @@ func parseContractFile(path string, pkgPath string) (*ContractFile, error) {
 			cur.HasFrame = true
 		case kw == "wrapping":
 			cur.Wrapping = true
+		case kw == "prune":
+			cur.Prune = true
 		case kw == "trusted":
 			cur.Trusted = true
 		case kw == "inline":
